@@ -215,6 +215,11 @@ func (s *SoftwrapScanner) Scan(ctx vxfw.DrawContext) bool {
 			s.rest = []byte{}
 			// Append characters to token until we reach the end
 			for _, char := range wordChars {
+				if w > 0 && w+uint16(char.Width) > s.width {
+					// A wide grapheme doesn't fit in what is left
+					// of the line. The line is full
+					w = s.width
+				}
 				if w >= s.width {
 					// Append the rest to rest
 					s.rest = append(s.rest, []byte(char.Grapheme)...)
